@@ -8,6 +8,7 @@ import Mathlib.Tactic.FieldSimp
 import Mathlib.Tactic.Positivity
 import Mathlib.Tactic.NormNum
 import Mathlib.Data.Rat.Lemmas
+import Mathlib.Data.Rat.Floor
 
 namespace Ruschm
 namespace Num
@@ -1248,6 +1249,131 @@ theorem floorRemainder_cases {a b : Num} (pa : a.PosDen) (pb : b.PosDen) :
     show (mul q b >>= fun p => sub a p) = .ok r
     rw [hp]; exact hr
   · right; unfold floorRemainder; rw [h]; rfl
+
+/-! ### floor-quotient / floor-remainder: remainder range, Mathlib floor, the integer case -/
+
+theorem rem_range {vn vd vr : ℚ} {k : Int} (h : vn = vd * (k : ℚ) + vr)
+    (h1 : (k : ℚ) ≤ vn / vd) (h2 : vn / vd < (k : ℚ) + 1) :
+    (0 < vd → 0 ≤ vr ∧ vr < vd) ∧ (vd < 0 → vd < vr ∧ vr ≤ 0) := by
+  constructor
+  · intro hp
+    rw [le_div_iff₀ hp] at h1
+    rw [div_lt_iff₀ hp] at h2
+    constructor <;> nlinarith
+  · intro hn
+    rw [le_div_iff_of_neg hn] at h1
+    rw [div_lt_iff_of_neg hn] at h2
+    constructor <;> nlinarith
+
+theorem floor_mul_bounds {n d k : Int} (k1 : (k : ℚ) ≤ (n : ℚ) / (d : ℚ))
+    (k2 : (n : ℚ) / (d : ℚ) < (k : ℚ) + 1) :
+    (0 < d → k * d ≤ n ∧ n < k * d + d) ∧ (d < 0 → n ≤ k * d ∧ k * d + d < n) := by
+  constructor
+  · intro hp
+    have hp' : (0 : ℚ) < (d : ℚ) := by exact_mod_cast hp
+    rw [le_div_iff₀ hp'] at k1
+    rw [div_lt_iff₀ hp'] at k2
+    constructor
+    · exact_mod_cast k1
+    · have : (n : ℚ) < ((k * d + d : Int) : ℚ) := by push_cast; linarith
+      exact_mod_cast this
+  · intro hn
+    have hn' : (d : ℚ) < 0 := by exact_mod_cast hn
+    rw [le_div_iff_of_neg hn'] at k1
+    rw [div_lt_iff_of_neg hn'] at k2
+    constructor
+    · exact_mod_cast k1
+    · have : ((k * d + d : Int) : ℚ) < (n : ℚ) := by push_cast; linarith
+      exact_mod_cast this
+
+/-- The integer case (what `floor/`, `floor-quotient`, `floor-remainder`, `modulo` compute): for
+`|n|, |d| < 2^30`, `d ≠ 0`, both results are exact integers, `⌊n/d⌋` and `n - d·⌊n/d⌋`. -/
+theorem floorq_floorr_int {n d : Int} (hn : n.natAbs ≤ 1073741823) (hd : d.natAbs ≤ 1073741823)
+    (d0 : d ≠ 0) :
+    floorQuotient (.int n) (.int d) = .ok (.int ⌊(n : ℚ) / (d : ℚ)⌋) ∧
+    floorRemainder (.int n) (.int d) = .ok (.int (n - d * ⌊(n : ℚ) / (d : ℚ)⌋)) := by
+  have hdiv : div (.int n) (.int d) = exactRatio n d := by simp [div, upcast, d0]
+  obtain ⟨t, ht, et⟩ := exactRatio_exact_of_natAbs (n := n) d0 (by omega) (by omega)
+  have vt := exactRatio_sound' ht et
+  have wt := exactRatio_wf' ht
+  obtain ⟨k, hk, fk, k1, k2⟩ := floor_spec wt.denPos vt
+  have hkf : ⌊(n : ℚ) / (d : ℚ)⌋ = k := Int.floor_eq_iff.mpr ⟨k1, k2⟩
+  rw [hkf]
+  have hq : floorQuotient (.int n) (.int d) = .ok (.int k) := by
+    unfold floorQuotient; rw [hdiv, ht]; exact hk
+  refine ⟨hq, ?_⟩
+  obtain ⟨bp, bn⟩ := floor_mul_bounds k1 k2
+  have f1 : fitsI32 (k * d) = true := by
+    rw [fitsI32_iff]
+    rcases Int.lt_or_gt_of_ne d0 with h | h
+    · have := bn h; omega
+    · have := bp h; omega
+  have f2 : fitsI32 (n - k * d) = true := by
+    rw [fitsI32_iff]
+    rcases Int.lt_or_gt_of_ne d0 with h | h
+    · have := bn h; omega
+    · have := bp h; omega
+  have hm : mul (.int k) (.int d) = .ok (.int (k * d)) := by
+    show exactRatio (k * d) 1 = _
+    exact exactRatio_one f1
+  have hs : sub (.int n) (.int (k * d)) = .ok (.int (n - k * d)) := by
+    show exactRatio (n - k * d) 1 = _
+    exact exactRatio_one f2
+  unfold floorRemainder; rw [hq]
+  show (mul (.int k) (.int d) >>= fun p => sub (.int n) p) = _
+  rw [hm]
+  show sub (.int n) (.int (k * d)) = _
+  rw [hs, Int.mul_comm]
+
+/-! ### completeness: a representable true result is returned exactly -/
+
+theorem den_cast_ne {a : Num} (pa : a.PosDen) : (a.den : ℚ) ≠ 0 := by
+  exact_mod_cast Int.ne_of_gt (posDen_den pa)
+
+theorem add_repr {a b x : Num} {va vb : ℚ} (pa : a.PosDen) (pb : b.PosDen)
+    (ha : a.val = some va) (hb : b.val = some vb) (hx : x.WF) (vx : x.val = some (va + vb)) :
+    add a b = .ok x := by
+  have h1 := den_cast_ne pa; have h2 := den_cast_ne pb
+  rw [add_exact (val_isExact ha) (val_isExact hb)]
+  apply exactRatio_complete' (mul_den_ne pa pb) hx
+  rw [vx, val_eq_of ha, val_eq_of hb]; congr 1; push_cast; field_simp
+
+theorem sub_repr {a b x : Num} {va vb : ℚ} (pa : a.PosDen) (pb : b.PosDen)
+    (ha : a.val = some va) (hb : b.val = some vb) (hx : x.WF) (vx : x.val = some (va - vb)) :
+    sub a b = .ok x := by
+  have h1 := den_cast_ne pa; have h2 := den_cast_ne pb
+  rw [sub_exact (val_isExact ha) (val_isExact hb)]
+  apply exactRatio_complete' (mul_den_ne pa pb) hx
+  rw [vx, val_eq_of ha, val_eq_of hb]; congr 1; push_cast; field_simp
+
+theorem mul_repr {a b x : Num} {va vb : ℚ} (pa : a.PosDen) (pb : b.PosDen)
+    (ha : a.val = some va) (hb : b.val = some vb) (hx : x.WF) (vx : x.val = some (va * vb)) :
+    mul a b = .ok x := by
+  have h1 := den_cast_ne pa; have h2 := den_cast_ne pb
+  rw [mul_exact (val_isExact ha) (val_isExact hb)]
+  apply exactRatio_complete' (mul_den_ne pa pb) hx
+  rw [vx, val_eq_of ha, val_eq_of hb]; congr 1; push_cast; field_simp
+
+theorem div_repr {a b x : Num} {va vb : ℚ} (pa : a.PosDen) (pb : b.PosDen)
+    (ha : a.val = some va) (hb : b.val = some vb) (hb0 : vb ≠ 0) (hx : x.WF)
+    (vx : x.val = some (va / vb)) : div a b = .ok x := by
+  have h1 := den_cast_ne pa; have h2 := den_cast_ne pb
+  have da := posDen_den pa; have db := posDen_den pb
+  have n0 : b.num ≠ 0 := by
+    intro h
+    exact hb0 (Option.some.inj (hb.symm.trans ((val_zero_iff pb (val_isExact hb)).mpr h)))
+  have n0' : (b.num : ℚ) ≠ 0 := by exact_mod_cast n0
+  rw [div_exact (val_isExact ha) (val_isExact hb), if_neg n0, if_neg (by omega), if_neg (by omega)]
+  apply exactRatio_complete' (Int.mul_ne_zero (by omega) n0) hx
+  rw [vx, val_eq_of ha, val_eq_of hb]; congr 1; push_cast; field_simp
+
+theorem abs_repr {a x : Num} {va : ℚ} (pa : a.PosDen)
+    (ha : a.val = some va) (hx : x.WF) (vx : x.val = some |va|) : abs a = .ok x := by
+  have da := posDen_den pa
+  rw [abs_exact (val_isExact ha)]
+  apply exactRatio_complete' (by omega) hx
+  rw [vx, val_eq_of ha]; congr 1
+  rw [abs_div]; simp
 
 end Num
 end Ruschm
